@@ -113,14 +113,15 @@ _GIN_E = (r"^impl < E : Entry , const N : usize > Entry for WithGlobalDimensions
 _GIN_V = (r"^impl < V : Value > Value for ValueWrapper < '_ , V >$", "write")
 _GW = r"^impl < W : ValueWriter > ValueWriter for ValueWriterWrapper < '_ , W >$"
 _GE = r"^impl < 'a , W : EntryWriter < 'a >> EntryWriter < 'a > for EntryWriterWrapper < '_ , W >$"
-_METRIC_PROOF = lambda field, dimsfield, argname: [("end", None, """proof {
+_METRIC_PROOF = lambda field, dimsfield, argname: [
+    ("start", None, "let ghost verif_f0 = flag_id(flags); let ghost verif_u0 = unit; let ghost verif_d0 = distribution.elems(); let ghost verif_m0 = dims_view(%(a)s.elems());" % dict(a=argname)),
+    ("end", None, """proof {
         let extra = cow_dims(self.%(d)s@);
-        let (d, m) = choose|d: Seq<Observation>, m: Seq<(Seq<char>, Seq<char>)>| self.%(f)s.got(#[trigger] mk_metric(d, unit, m, flag_id(flags)))
-            && d =~= distribution.elems() && m =~= dims_view(%(a)s.elems()) + extra;
-        let m0 = dims_view(%(a)s.elems());
-        assert(with_dims(mk_metric(d, unit, m0, flag_id(flags)), extra) == mk_metric(d, unit, m0 + extra, flag_id(flags)));
-        assert(m =~= m0 + extra);
-        assert(self.got(mk_metric(d, unit, m0, flag_id(flags))));
+        let (d, m) = choose|d: Seq<Observation>, m: Seq<(Seq<char>, Seq<char>)>| self.%(f)s.got(#[trigger] mk_metric(d, verif_u0, m, verif_f0))
+            && d =~= verif_d0 && m =~= verif_m0 + extra;
+        assert(with_dims(mk_metric(d, verif_u0, verif_m0, verif_f0), extra) == mk_metric(d, verif_u0, verif_m0 + extra, verif_f0));
+        assert(m =~= verif_m0 + extra);
+        assert(self.got(mk_metric(d, verif_u0, verif_m0, verif_f0)));
      }""" % dict(f=field, d=dimsfield, a=argname))]
 _CL = {1: dict(params="verif_kv: (&'a str, &'a str)", destructure=("(k, v)", "verif_kv"), ret="(o: (&str, &str))", ensures="o == verif_kv,")}
 
